@@ -17,28 +17,36 @@ GENERATED = ["ProjFlags"]
 TRUSTED = [
     "abstraction of a real (child, parent, dependents) triple to (input schemas, operator parameters, parent request, "
     "[(dependent._projection_columns, ndim==1)]) and of the returned expression to (child projections, parent kept, "
-    "surviving parameter keys): harness/props/c04.py render_result",
+    "surviving parameter keys, removed inputs): harness/props/c04.py render_result",
     "Filter._simplify_up's filter-push-down guard is evaluated with the real functions and handed to the model as `blocked`",
-    "column semantics of the operators (KeyedOp / RelabelOp / AssignOp / BinOp / MergeOp / ConcatOp laws in DxModel/Cols.lean) "
-    "are hypotheses of the value theorems; the merge label function is validated by family merge_labels, the hand-assigned "
-    "category of every _projection_passthrough class (harness/extractors_cols.py) by family passthrough_conformance",
+    "column semantics of the operators (KeyedOp / RelabelOp / AssignOp / BinOp / MergeOp / ConcatOp / ResetOp / SourceOp / "
+    "AsTypeOp / DropOp laws in DxModel/Cols.lean) are hypotheses of the value theorems; the merge label function is "
+    "validated by family merge_labels, the hand-assigned category of every class reaching plain_column_projection "
+    "(harness/extractors_cols.py) by family category_conformance on the real unoptimised implementation",
+    "a scalar (collapsed) child is treated as the one-column frame acted on by the same operator",
     "pandas itself and the unoptimised lowering (oracles of the end-to-end search)",
 ]
 PARTIAL = [
-    "C04_merge_*_partial: Merge projection push-down is proven when no join key that is not common to both sides collides with a "
-    "column of the other side; otherwise the suffix disappears (C04_merge_counterexample; N1, reported by the support search)",
-    "C04_passthrough_table_partial: OpAlignPartitions / MethodOperatorAlign are flagged _projection_passthrough but have a second "
-    "frame operand that plain_column_projection does not prune (C04_passthrough_binary_counterexample; N2)",
-    "C04_astype_*_partial: dict dtypes + scalar collapse uses a substring test (C04_astype_counterexample; N3)",
-    "C04_concat_values_partial: frames contributing no requested column are dropped together with their rows "
-    "(C04_concat_counterexample; N4)",
-    "C04_plain_*_partial over 1-d inputs: the scalar-collapse rule fires for a list selection of a reduction result "
-    "(C04_reduction_counterexample; N5)",
-    "C04_affix_*_partial needs a non-empty suffix: col[:-0] is the empty string (C04_suffix_counterexample; N6)",
-    "C04_binop_wf_partial needs both frame operands to have the operator's output columns (C04_binop_counterexample; N7)",
-    "C04_widening is proven per rule (the child projection does not depend on unrequested input columns) and for sources; the "
-    "whole-plan statement is covered by the end-to-end widened-vs-original search only",
-    "rules over Series inputs (ResetIndex of a Series, Projection of a Series) and MultiIndex / non-string labels are not modelled",
+    "C04_merge_labels_partial / C04_merge_values_{left,right}_partial need KeysDoNotCollide: a join key that also names a column "
+    "of the other side must be common to both sides (C04_merge_counterexample; open finding D34). C04_merge_wf (keys kept, no "
+    "duplicates) holds for every merge",
+    "C04_concat_axis1_wf_partial: with axis=1 an input contributing no requested column is removed from the index join "
+    "(C04_concat_axis1_counterexample; open finding D35); axis=0 is proven in full (C04_concat_wf / C04_concat_values)",
+    "C04_plain_wf is stated for Projection parents over a frame: over a 1-d input (labels of a reduction result) the scalar "
+    "collapse fires for a list selection (C04_reduction_counterexample; open finding D37)",
+    "C04_suffix_wf_partial / C04_suffix_values_partial need a non-empty suffix (C04_suffix_counterexample; D38)",
+    "C04_binop_wf_partial / C04_binop_values_partial need both frame operands to have the output columns "
+    "(C04_binop_counterexample; D39)",
+    "C04_passthrough_table_partial: Categorize, Corr, Cov, Mode reach plain_column_projection although they are not "
+    "column-local (D40, D41, and D35 for Mode); groupby cov/corr under groupby_projection likewise (D42, search only)",
+    "C04_rolling_wf_partial covers the grouped rolling only; the ungrouped rule does not re-apply the parent "
+    "(C04_rolling_counterexample; D43)",
+    "the collapse of the child to a Series is sound only for operators that act on a Series as on the one-column frame; "
+    "ExplodeFrame, Round(dict) and Where(frame condition) do not (D44, D45, D46: search only)",
+    "C04_widening is proven per rule (the child projection does not depend on unrequested input columns) and for sources; "
+    "the whole-plan statement is covered by the end-to-end widened-vs-original search only",
+    "rules over Series inputs (ResetIndex of a Series, Projection of a Series), MultiIndex / non-string labels, "
+    "ReadParquet/ReadCSV's own absorption and AssignAlign are not modelled",
 ]
 EXPLANATION = (
     "Model: determine_column_projection, plain_column_projection and every projection rule as pure functions of schemas, "
@@ -46,10 +54,16 @@ EXPLANATION = (
     "still finds its key columns and no list gains duplicates, requested values unchanged (operator laws as hypotheses), "
     "listed dependents' columns are kept, unlisted consumers keep the original node, unrequested source columns do not "
     "influence the pruned plan. Tie: the real _simplify_up/_simplify_down called on constructed (child, parent, dependents) "
-    "triples vs the compiled model; T1 flag table with a decided obligation. Support: projections of every operator family "
-    "x shared intermediates x widened sources, optimize().compute() vs unoptimised lowering vs pandas."
+    "triples vs the compiled model; T1 table of the classes reaching plain_column_projection with a decided obligation; "
+    "category conformance on the real operations. Support: projections of every operator family x shared intermediates x "
+    "widened sources, optimize().compute() vs unoptimised lowering vs pandas."
 )
 RULE = ("(operator instance x parent request x dependents shape) enumerated; non-trivial = the real rule returned a rewrite")
+ASSUMPTIONS = [
+    "column labels are strings; frames have no duplicate labels where a value theorem is used",
+    "a program outside the pandas-accepted queries (pandas raises) is outside the quantifier",
+    "cummax/cummin are kept out of the search space: they raise by themselves on one-column frames (independent defect, reported)",
+]
 
 UNIV = ["a", "b", "ab", "c", "k"]
 
@@ -380,7 +394,7 @@ def fam_plain(ctx):
     if ctx.quick:
         insts = [i for k, i in enumerate(insts) if k % 3 == ctx.seed % 3 or i.tag in ("Fillna", "ExplodeFrame", "CumSum")]
     return run_rule_family(ctx, "plain_column_projection[Blockwise/Elemwise pass-through, Clip, Unaryop, Cumulative, Explode]",
-                           insts, cap_parents=40 if ctx.quick else None)
+                           insts, cap_parents=24 if ctx.quick else None)
 
 
 def fam_reduction(ctx):
@@ -444,7 +458,7 @@ def fam_assign(ctx):
             e = Assign(df.expr, *pairs)
             insts.append(Inst("assign", e, [e.frame], f"frame={rc(cols)} keys={rc(e.keys)}", list(e.columns), tag=nm,
                               suffix=_keys_suffix(lambda inner: inner.keys)))
-    return run_rule_family(ctx, "Assign._simplify_up", insts, cap_parents=60 if ctx.quick else None)
+    return run_rule_family(ctx, "Assign._simplify_up", insts, cap_parents=30 if ctx.quick else None)
 
 
 def fam_rename(ctx):
@@ -469,7 +483,7 @@ def fam_rename(ctx):
                 continue
             ms = ",".join(f"{k}>{v}" for k, v in m.items())
             insts.append(Inst("rename", e, [e.frame], f"frame={rc(cols)} map={ms}", list(e.columns), tag=ms))
-    return run_rule_family(ctx, "RenameFrame._simplify_up", insts, cap_parents=60 if ctx.quick else None)
+    return run_rule_family(ctx, "RenameFrame._simplify_up", insts, cap_parents=30 if ctx.quick else None)
 
 
 def fam_affix(ctx):
@@ -482,7 +496,7 @@ def fam_affix(ctx):
             e = cls(df.expr, s)
             insts.append(Inst("affix", e, [e.frame], f"suffix={sfx} n={len(s)} frame={rc(cols)}", list(e.columns),
                               tag=f"{cls.__name__}({s!r})"))
-    return run_rule_family(ctx, "AddPrefix/AddSuffix._simplify_up", insts, cap_parents=60 if ctx.quick else None)
+    return run_rule_family(ctx, "AddPrefix/AddSuffix._simplify_up", insts, cap_parents=30 if ctx.quick else None)
 
 
 def fam_binop(ctx):
@@ -505,13 +519,11 @@ def fam_binop(ctx):
                 outc = list(e.columns)
             except Exception:  # noqa: BLE001
                 continue
-            ins = [x for x in (l, r) if isinstance(x, Expr)]
-
             def side(x):
                 return rc(x.columns) if isinstance(x, Expr) and x.ndim > 1 else "*"
 
             insts.append(_BinopInst("binop", e, [l, r], f"self={rc(outc)} left={side(l)} right={side(r)}", outc, tag=nm))
-    return run_rule_family(ctx, "Binop._simplify_up", insts, cap_parents=60 if ctx.quick else None)
+    return run_rule_family(ctx, "Binop._simplify_up", insts, cap_parents=30 if ctx.quick else None)
 
 
 class _BinopInst(Inst):
@@ -559,7 +571,7 @@ def fam_astype(ctx):
             dk = rc(dt.keys()) if isinstance(dt, dict) else "*"
             sfx = _keys_suffix(lambda inner: inner.operand("dtypes").keys()) if isinstance(dt, dict) else None
             insts.append(Inst("astype", e, [e.frame], f"frame={rc(cols)} dkeys={dk}", list(e.columns), tag=nm, suffix=sfx))
-    return run_rule_family(ctx, "AsType._simplify_up[Projection]", insts, cap_parents=60 if ctx.quick else None)
+    return run_rule_family(ctx, "AsType._simplify_up[Projection]", insts, cap_parents=30 if ctx.quick else None)
 
 
 def fam_dropna(ctx):
@@ -575,7 +587,7 @@ def fam_dropna(ctx):
             others = [dx.new_collection(e).groupby(cols[1]).sum().expr, dx.new_collection(e).fillna(0).expr]  # D17
             insts.append(Inst("dropna", e, [e.frame], f"frame={rc(cols)} subset={'*' if sub is None else rc(sub)}", list(cols), tag=str(sub),
                               other_parents=others))
-    return run_rule_family(ctx, "DropnaFrame._simplify_up", insts, cap_parents=60 if ctx.quick else None)
+    return run_rule_family(ctx, "DropnaFrame._simplify_up", insts, cap_parents=30 if ctx.quick else None)
 
 
 def fam_combine_first(ctx):
@@ -587,7 +599,7 @@ def fam_combine_first(ctx):
         for cls in (CombineFirst, CombineFirstAlign):
             e = cls(l.expr, r.expr)
             insts.append(Inst("combinefirst", e, [e.frame, e.other], f"frame={rc(lc)} other={rc(rcols)}", list(e.columns), tag=cls.__name__))
-    return run_rule_family(ctx, "CombineFirst/CombineFirstAlign._simplify_up", insts, cap_parents=60 if ctx.quick else None)
+    return run_rule_family(ctx, "CombineFirst/CombineFirstAlign._simplify_up", insts, cap_parents=30 if ctx.quick else None)
 
 
 def fam_opalign(ctx):
@@ -610,7 +622,7 @@ def fam_opalign(ctx):
             insts.append(Inst("opalign", e, [e.frame, e.other], f"frame={rc(lc)} other=*", outc, tag="frame+series"))
         except Exception:  # noqa: BLE001
             pass
-    return run_rule_family(ctx, "OpAlignPartitions/MethodOperatorAlign._simplify_up", insts, cap_parents=60 if ctx.quick else None)
+    return run_rule_family(ctx, "OpAlignPartitions/MethodOperatorAlign._simplify_up", insts, cap_parents=30 if ctx.quick else None)
 
 
 def fam_reset_index(ctx):
@@ -652,7 +664,7 @@ def fam_io(ctx):
         fm = dx.from_map(reader, [0, 1], meta=pdf.iloc[:0]).expr
         if type(fm).__name__ == "FromMapProjectable":
             insts.append(Inst("io", fm, [fm], f"self={rc(cols)}", list(cols), tag="FromMapProjectable", io=True))
-    f = run_rule_family(ctx, "BlockwiseIO._simplify_up[FromPandas, FromMapProjectable]", insts, cap_parents=60 if ctx.quick else None)
+    f = run_rule_family(ctx, "BlockwiseIO._simplify_up[FromPandas, FromMapProjectable]", insts, cap_parents=30 if ctx.quick else None)
     return f
 
 
@@ -694,9 +706,8 @@ def fam_keyed(ctx):
         for nm, sub in (("dd_none", None), ("dd_a", ["a"]), ("dd_kb", [k, b]), ("dd_ab", [cols[1]])):
             e = DropDuplicates(df.expr, subset=sub)
             insts.append(Inst("dropdup", e, [e.frame], f"frame={rc(cols)} subset={'*' if sub is None else rc(sub)}", list(cols), tag=nm))
-        e = NLargest(df.expr, 2, None) if False else None
     return run_rule_family(ctx, "groupby_projection/SortValues/SetIndex/NLargest/ShuffleBase/SetIndexBlockwise/DropDuplicates._simplify_up",
-                           insts, maxlen=2 if ctx.quick else 3, cap_parents=40 if ctx.quick else None)
+                           insts, maxlen=2 if ctx.quick else 3, cap_parents=14 if ctx.quick else None)
 
 
 def fam_rolling(ctx):
@@ -712,7 +723,7 @@ def fam_rolling(ctx):
             insts.append(Inst("rolling", e, [e.frame], f"frame={rc(cols)} gb=k", list(e.columns), tag="gb.rolling.sum"))
         except Exception:  # noqa: BLE001
             pass
-    return run_rule_family(ctx, "RollingReduction._simplify_up", insts, cap_parents=60 if ctx.quick else None)
+    return run_rule_family(ctx, "RollingReduction._simplify_up", insts, cap_parents=30 if ctx.quick else None)
 
 
 MERGE_CONFIGS = [
@@ -750,8 +761,6 @@ def fam_merge(ctx):
     for lc, rcols, kw in MERGE_CONFIGS:
         for how in (("inner", "left") if not ctx.quick else ("inner",)):
             e, params = _merge_inst(lc, rcols, kw, how)
-            if any(not isinstance(c, str) for c in list(e.left_on or []) + list(e.right_on or []) if not isinstance(e.left_on, str)):
-                pass
             insts.append(Inst("merge", e, [e.left, e.right], params, list(e.columns), tag=f"{lc}|{rcols}|{kw}|{how}"))
     return run_rule_family(ctx, "Merge._simplify_up[Projection/Index]", insts, maxlen=2 if ctx.quick else 3, index_parent=True)
 
@@ -814,7 +823,7 @@ def fam_concat(ctx):
                 continue
             params = f"axis1={int(axis == 1)} inner={int(join == 'inner')} frames={'/'.join(rc(x.columns) for x in e._frames)}"
             insts.append(Inst("concat", e, list(e._frames), params, list(e.columns), tag=f"{fs}|{axis}|{join}", concat=True))
-    return run_rule_family(ctx, "Concat._simplify_up", insts, cap_parents=60 if ctx.quick else None)
+    return run_rule_family(ctx, "Concat._simplify_up", insts, cap_parents=30 if ctx.quick else None)
 
 
 def fam_down(ctx):
@@ -1386,7 +1395,8 @@ def _cases(ctx, broken):
         txt = (b.get("family") or "") + " " + (b.get("theorem") or "")
         for prog in _programs():
             for word in prog.site.replace("+", " ").split():
-                if word.lower() in txt.lower():
+                cls = word.split(".")[0].split("[")[0]  # the class / function the rule belongs to
+                if cls and cls.lower() in txt.lower():
                     steer_sites.add(prog.site)
     if steer_sites:
         first = [c for c in cases if _prog(c["prog"]).site in steer_sites]
@@ -1418,7 +1428,7 @@ def _cases(ctx, broken):
 def support(ctx, broken):
     sup = Support()
     seen = set()
-    budget = 32 if ctx.quick and not broken else (240 if ctx.quick else 600)
+    budget = 25 if ctx.quick and not broken else (240 if ctx.quick else 600)
     import time
 
     t0 = time.time()
